@@ -159,10 +159,11 @@ def run(tier, seed, replay=None):
         'hand-written models theories/Common/Int32.v (i32 arithmetic, WebAssembly instruction semantics) and theories/C02/Kernels.v '
         '(evaluate_bin_op, merge_binary_expression, trip-count closed form, operand normalisation); tie: exhaustive sweep of a '
         '24-value boundary lattice per operand plus random operands through the samlang_verif hooks, in debug and release builds',
-        'whole passes: DCE, LVN and CCP are modelled in Gallina on a MIR fragment (theories/C02deep) with preservation theorems (CCP: '
-        'all paths except the two loop rewrites that re-optimise optimised code) and tied by comparing the model pass output with the '
-        'real pass output; inlining, scalar replacement, CSE, LICM, strength reduction, IV elimination are not modelled: they are '
-        'translation-validated by running MIR before/after in the harness interpreter (testing)',
+        'whole passes: DCE, LVN, CSE and CCP (theories/C02deep), the loop pass with invariant code motion, induction analysis, '
+        'closed form, IV elimination and strength reduction (theories/C02loop), inlining and scalar replacement (theories/C02inl) are '
+        'modelled in Gallina on a MIR fragment with preservation theorems and tied by comparing the model pass output with the real '
+        'pass output on generated and synthetic functions; MIR outside the fragment (reported as coverage in the evidence) and the '
+        'pass pipeline as a whole are translation-validated by running MIR before/after in the harness interpreter (testing)',
     ]
     ck.rule = ('kernels: all 16 operators x 24x24 boundary lattice + random operands; merge: 16x3 operator pairs x 12x12 constants; '
                'trip count: 4 guards x 11x12x11 lattice + random small triples; both build profiles')
